@@ -219,7 +219,10 @@ impl<const N: usize> Ex<N> {
                 // SAFETY: `slot < N`, the slot is outside the occupied range, and MaybeUninit<T>
                 // may hold any bytes.
                 unsafe {
-                    std::ptr::copy_nonoverlapping(bytes.as_ptr(), ptr.add(slot) as *mut u8, 16);
+                    let dst = ptr.add(slot) as *mut u8;
+                    std::ptr::copy_nonoverlapping(bytes.as_ptr(), dst, 16);
+                    // the rest of a big element gets the pattern's first byte
+                    std::ptr::write_bytes(dst.add(16), bytes[0], std::mem::size_of::<Tracked>() - 16);
                 }
                 self.stats.poisons += 1;
             }
